@@ -1,7 +1,7 @@
 """C16 — level / sink-level / filter gating (DESIGN §4 C16)."""
 from qlib import (AnalysisBroken, strip, isnode, walk, is_call, norm_cmp, var_ref, is_null, const_val, short, call_obj,
                   expr_key, field_name, is_this_field, atomic_op)
-from rules.common import (core_and_neg, tnode, other, cpos, npos, branches_on_call, in_subtree, need_some, returns_bool,
+from rules.common import (eq_kind, core_and_neg, tnode, other, cpos, npos, branches_on_call, in_subtree, need_some, returns_bool,
                           flatten)
 from rules.c02 import cmp_sides
 import gen_macros
@@ -28,14 +28,30 @@ LL = "quill::LogLevel::"
 def run(ctx):
     facts = ctx.facts("core.cpp", "A")
     r1(ctx, ())
+    # the compile-time level table (#if QUILL_COMPILE_ACTIVE_LOG_LEVEL <= ..._<LEVEL> around each block of macros) is invisible in the
+    # default configuration: every floor is part of the quick tier too (a guard naming the wrong level compiles one level's macros out at
+    # exactly one floor); the nine witnesses are extracted in parallel
+    floors = [("-DQUILL_COMPILE_ACTIVE_LOG_LEVEL=%d" % lvl,) for lvl in range(0, 9)]
+    from concurrent.futures import ThreadPoolExecutor
+    import qlib as _qlib
+
+    def _prefetch(flags):
+        try:
+            path, _t, _g = gen_macros.generate(flags)
+            _qlib.extract(path, "A", flags)
+        except Exception:
+            pass        # reported by the sequential pass below
+    with ThreadPoolExecutor(9) as ex:
+        list(ex.map(_prefetch, floors))
+    for lvl in range(0, 9):
+        r1(ctx, floors[lvl], floor_level=lvl)
     if ctx.tier == "thorough":
-        for lvl in range(0, 9):
-            r1(ctx, ("-DQUILL_COMPILE_ACTIVE_LOG_LEVEL=%d" % lvl,), floor_level=lvl)
         r1(ctx, ("-DQUILL_IMMEDIATE_FLUSH=1",))
     r2(ctx, facts)
     r3(ctx, facts)
     r4(ctx, facts)
     r5_override_chain(ctx, facts)
+    r7_threshold_and_filter_setters(ctx, facts)
     # two loggers share a formatter only when every option is equal (shared with C12.R7)
     from rules import c12
     from rules.c09 import Renamed as _Ren
@@ -505,3 +521,110 @@ def r5_override_chain(ctx, facts):
                "the constructor hands the override pattern options of its parameter(s) %s on to the base constructor argument that reaches "
                "Sink::%s (reaching: %s)" % ([f.rec["params"][k].get("name") or k for k in bearing], FIELD, sorted(carried(f))), fn=f)
     ctx.floor("C16.R5b", "sink constructors that take override-bearing parameters", n, 6)
+
+
+def r7_threshold_and_filter_setters(ctx, facts):
+    """R7: what the user sets is what the gate compares with. R7a: Sink::set_log_level_filter / LoggerBase::set_log_level store their
+    argument itself into the atomic the gate loads, on every path that does not throw; the getters load that atomic. R7b: add_filter,
+    under the filters lock, appends the filter it was given on every path that does not throw and raises the 'new filter' flag after the
+    append (the flag is what makes the backend reload its local list); a filter is refused (throw) exactly when one of the same name is
+    found. R7c/R7d (apply_all_filters): the local list is rebuilt exactly on the 'flag set' outcome, and a sink whose list is empty
+    accepts."""
+    def stores_param(fn_name, field, floor=1):
+        for f in facts.need(fn_name, "A")[:floor]:
+            g = f.g
+            p0 = f.rec["params"][0]["did"]
+            st = [n for n in f.walk() if (atomic_op(n) or {}).get("kind") == "store" and is_this_field(atomic_op(n)["obj"], field)]
+            okv = bool(st) and all(var_ref(strip(atomic_op(n).get("value"), casts=True)) == p0 for n in st)
+            thr = [q for x in f.walk() if x["k"] == "CXXThrowExpr" for q in g.positions(x)]
+            every = bool(st) and not g.exists_path([g.entry_node], [g.exit_node], avoid_nodes=npos(f, st) + thr)
+            ctx.ob("C16.R7a", "%s:stores-argument" % fn_name.replace("quill::", "").replace("detail::", ""), okv and every,
+                   "the threshold the gate loads (%s) receives the caller's argument itself on every path that does not throw "
+                   "(value is the parameter: %s, on every path: %s)" % (field, okv, every), fn=f)
+
+    def loads_field(fn_name, field):
+        f = facts.need(fn_name, "A")[0]
+        rets = [f.g.node_ast(r) for r in f.g.return_nodes()]
+        ok = bool(rets) and all((atomic_op(strip(r.get("val"), casts=True)) or {}).get("kind") == "load" and
+                                is_this_field(atomic_op(strip(r.get("val"), casts=True))["obj"], field) for r in rets)
+        ctx.ob("C16.R7a", "%s:loads-threshold" % fn_name.replace("quill::", "").replace("detail::", ""), ok,
+               "the getter returns a load of %s" % field, fn=f)
+    stores_param("quill::Sink::set_log_level_filter", "_log_level")
+    loads_field("quill::Sink::get_log_level_filter", "_log_level")
+    stores_param("quill::detail::LoggerBase::set_log_level", "log_level")
+    # add_filter
+    f = facts.need("quill::Sink::add_filter", "A")[0]
+    g = f.g
+    p0 = f.rec["params"][0]["did"]
+    push = [c for c in f.calls(r"std::vector<std::unique_ptr<quill::Filter.*>::(push_back|emplace_back)$") if is_this_field(call_obj(c), "_global_filters")]
+    push_ok = bool(push) and all(any(var_ref(x) == p0 for x in walk(c["args"][0])) for c in push)
+    thr = [q for x in f.walk() if x["k"] == "CXXThrowExpr" for q in g.positions(x)]
+    pp = npos(f, push)
+    every = bool(pp) and not g.exists_path([g.entry_node], [g.exit_node], avoid_nodes=pp + thr)
+    flag = [n for n in f.walk() if (atomic_op(n) or {}).get("kind") == "store" and is_this_field(atomic_op(n)["obj"], "_new_filter")]
+    flag_true = bool(flag) and all(const_val(atomic_op(n).get("value")) == 1 for n in flag)
+    fp = npos(f, flag)
+    after = bool(fp) and bool(pp) and not g.exists_path(pp, [g.exit_node], avoid_nodes=fp) and not g.exists_path(fp, pp)
+    locks = [d for d in f.var_decls().values() if "LockGuard" in (d.get("ty") or "") and isnode(d.get("init")) and
+             any(is_this_field(x, "_global_filters_lock") for x in walk(d["init"]))]
+    lockp = g.pos_of(lambda n: isnode(n) and n.get("k") in ("Var", "DeclStmt") and any(d.get("did") in [l.get("did") for l in locks] for d in (n.get("decls") or [n])))
+    locked = bool(locks) and bool(lockp) and all(g.dominates(lockp, p) for p in pp)
+    ctx.ob("C16.R7b", "Sink::add_filter:appends-then-raises-flag", push_ok and every and flag_true and after and locked,
+           "under the filters lock (%s) the filter handed in is appended to the sink's list on every path that does not throw (%s, %s) and "
+           "the 'new filter' flag is then set to true on every path (%s, %s)" % (locked, push_ok, every, flag_true, after), fn=f)
+    # refusal: exactly when a filter of the same name was found
+    lam = [x for x in facts.fns if x.config == "A" and x.rec.get("parent") == f.name]
+    same_name = False
+    for l in lam:
+        rets = [l.g.node_ast(r) for r in l.g.return_nodes()]
+        for r in rets:
+            v = strip(r.get("val"), casts=True)
+            sides = None
+            if isnode(v) and v["k"] == "CXXOperatorCallExpr" and re.search(r"operator==", v.get("callee") or "") and len(v["args"]) == 2:
+                sides = v["args"]
+            elif isnode(v) and v["k"] == "BinaryOperator" and v["op"] == "==":
+                sides = [v["lhs"], v["rhs"]]
+            if sides and all(any(is_call(x, r"Filter::get_filter_name$") for x in walk(s_)) for s_ in sides):
+                same_name = True
+    found = []
+    for bid, b in g.blocks.items():
+        c = g.term_cond(bid)
+        nc = eq_kind(c) if c is not None else None
+        if nc and any(is_call(x, r"std::vector<.*>::c?end$") for x in walk(c)):
+            found.append((bid, "T" if nc[0] == "!=" else "F"))   # label of 'found'
+    refuse = bool(found) and bool(thr) and not g.exists_path([g.entry_node], thr, avoid_edges=found) and \
+        all(not g.exists_path([y for (y, l2) in g.succ.get(tnode(g, b), ()) if l2 == lab], [g.exit_node], avoid_nodes=thr) for (b, lab) in found)
+    ctx.ob("C16.R7b", "Sink::add_filter:refuses-duplicate-name-only", same_name and refuse,
+           "the search compares filter names for equality (%s) and the call throws exactly on the 'found' outcome (%s)" % (same_name, refuse), fn=f)
+    # apply_all_filters: reload exactly when the flag is set; an empty list accepts
+    a = facts.need("quill::Sink::apply_all_filters", "A")[0]
+    g = a.g
+    flag_edges = []
+    for bid, b in g.blocks.items():
+        c = g.term_cond(bid)
+        if c is None:
+            continue
+        core, neg = core_and_neg(c)
+        core = strip(core, casts=True)
+        if is_call(core, r"__builtin_expect$") and core.get("args"):
+            c2, n2 = core_and_neg(strip(core["args"][0], casts=True))
+            core, neg = strip(c2, casts=True), neg != n2
+        ao = atomic_op(core)
+        if ao and ao.get("kind") == "load" and is_this_field(ao["obj"], "_new_filter"):
+            flag_edges.append((bid, "F" if neg else "T"))    # label of 'flag set'
+    rebuild = npos(a, [c for c in a.calls(r"std::vector<.*>::(push_back|emplace_back)$") if is_this_field(call_obj(c), "_local_filters")])
+    lf_clear = npos(a, [c for c in a.calls(r"std::vector<.*>::clear$") if is_this_field(call_obj(c), "_local_filters")])
+    uses = npos(a, [c for c in a.calls(r"^std::all_of") ] + [c for c in a.calls(r"std::vector<.*>::empty$") if is_this_field(call_obj(c), "_local_filters")])
+    ok = bool(flag_edges) and bool(rebuild) and bool(lf_clear) and bool(uses) and \
+        not g.exists_path([g.entry_node], rebuild + lf_clear, avoid_edges=flag_edges) and \
+        all(not g.exists_path([y for (y, l2) in g.succ.get(tnode(g, b), ()) if l2 == lab], uses, avoid_nodes=lf_clear) for (b, lab) in flag_edges)
+    ctx.ob("C16.R7c", "Sink::apply_all_filters:reload-iff-flag-set", ok,
+           "the sink's local filter list is cleared and rebuilt exactly on the 'new filter flag is set' outcome, before the list is consulted", fn=a)
+    empt = [(b, t) for (b, t, c) in branches_on_call(a, r"std::vector<.*>::empty$") if is_this_field(call_obj(c), "_local_filters")]
+    trues = [p for p in g.return_nodes() if const_val(g.node_ast(p)["val"]) == 1]
+    nontrue = [p for p in g.return_nodes() if p not in trues]
+    ok = (not empt) or all(not g.exists_path([y for (y, l2) in g.succ.get(tnode(g, b), ()) if l2 == t], nontrue) and
+                           not any(y in nontrue for (y, l2) in g.succ.get(tnode(g, b), ()) if l2 == t) for (b, t) in empt)
+    ctx.ob("C16.R7d", "Sink::apply_all_filters:no-filter-accepts", ok and (bool(empt) or bool(a.calls(r"^std::all_of"))),
+           "a statement that passed the threshold is accepted when the sink has no filter (the 'list is empty' outcome returns true, or "
+           "std::all_of runs over the empty list)", fn=a)
